@@ -35,7 +35,7 @@ fn inside_convex(poly: &PolyIn, p: (f64, f64), margin: f64) -> Option<bool> {
 }
 
 pub fn gen_poly(rng: &mut Rng, thorough: bool) -> PolyIn {
-  let depth = rng.below(if thorough { 12 } else { 10 }) as u8;
+  let depth = if rng.chance(0.25) { 12 + rng.below(18) as u8 } else { rng.below(if thorough { 12 } else { 10 }) as u8 };
   let cell = 1.0 / (1u64 << depth) as f64;
   let (rho, class) = match rng.below(5) { 0 => (cell * (1e-3 + rng.f01() * 0.5), "far-below-a-cell"), 1 => (cell * (0.5 + 6.0 * rng.f01()), "few-cells"), 2 => (0.02 + 0.27 * rng.f01(), "up-to-0.3-rad"), 3 => (0.3 + 0.45 * rng.f01(), "0.3-to-0.75-rad"), _ => (10f64.powf(-6.0 * rng.f01()) * 0.29, "log-uniform") };
   // keep the number of cells manageable
@@ -94,7 +94,9 @@ pub fn poly_case(out: &mut Out, rng: &mut Rng, p: &PolyIn, exact: bool) {
       let cc = ld.center(h);
       if p.rho < 0.3 {
         let bound = p.rho + 2.0 * largest_c2v_of_depth(d) * (1.0 + 1e-9) + 1e-12;
-        if hav(cc, p.centre) > bound { out.violation("C12:not-tight", inp.clone(), format!("centre within {:e} of the bounding cone centre", bound), format!("cell {}/{} at {:e}", d, h, hav(cc, p.centre))); return; }
+        // finding F19: below ~1e-7 rad the sign of (v_i x v_{i+1}) . p is rounding noise (|v_i x v_{i+1}| . distance < 1e-16)
+        let tiny = if p.rho < 1e-7 { ":polygon-below-1e-7-rad" } else { "" };
+        if hav(cc, p.centre) > bound { out.violation(&format!("C12:not-tight{}", tiny), inp.clone(), format!("centre within {:e} of the bounding cone centre", bound), format!("cell {}/{} at {:e}", d, h, hav(cc, p.centre))); return; }
       }
       if full && p.convex {
         let mut pts: Vec<(f64, f64)> = ld.vertices(h).to_vec(); pts.push(cc);
@@ -185,8 +187,9 @@ pub fn ell_case(out: &mut Out, rng: &mut Rng, depth: u8, dd: u8, lon: f64, lat: 
 
 pub fn run_c13(out: &mut Out, rng: &mut Rng, thorough: bool) {
   for _ in 0..(if thorough { 10_000 } else { 1_500 }) {
-    let depth = rng.below(if thorough { 13 } else { 11 }) as u8;
-    let dd = if rng.chance(0.35) { rng.below(4.min(29 - depth as u64)) as u8 } else { 0 };
+    // all depths: 0..12 mostly, the deep ones (13..29) with radii of a few cells (the cap below keeps the cell count small)
+    let depth = if rng.chance(0.3) { 13 + rng.below(17) as u8 } else { rng.below(if thorough { 13 } else { 11 }) as u8 };
+    let dd = if rng.chance(0.35) && depth < 29 { rng.below(4.min(30 - depth as u64)) as u8 } else { 0 };
     let p = loop { let p = gen_pos(rng); if p.lat.abs() <= PI / 2.0 { break p; } };
     let cell = 1.0 / (1u64 << depth) as f64;
     let (mut a, class) = match rng.below(6) { 0 => (10f64.powf(-8.0 * rng.f01()) * (PI / 2.0), "a-log-uniform"), 1 => (cell * (0.05 + 4.0 * rng.f01()), "a-about-cell-size"), 2 => (cell * 30.0 * rng.f01() + 1e-9, "a-few-cells"), 3 => (0.5 + rng.f01() * (PI / 2.0 - 0.5) * 0.999, "a-large"), 4 => { let t = crate::c05::thresholds(); (t[rng.below(30) as usize] * (0.95 + 0.1 * rng.f01()), "a-near-table-entry") }, _ => (*rng.pick(&[PI / 2.0, PI / 2.0 + 0.1, ulp_step(PI / 2.0, -1), 2.0]), "guard") };
